@@ -982,6 +982,7 @@ fn break_pkg(rng: &mut Rng, pkg: &Pkg, srcs: &mut [String]) -> Option<(&'static 
     let kinds = [
         "unknown-ident", "unknown-ident-in-test", "type-mismatch", "test-not-verdict", "test-no-tail", "accept-value",
         "missing-brace", "extra-brace", "dup-test", "call-test", "call-test-from-test", "import-test", "test-with-params",
+        "stray-char-top-level", "stray-token-top-level",
     ];
     let kind = *rng.pick(&kinds);
     match kind {
@@ -996,6 +997,32 @@ fn break_pkg(rng: &mut Rng, pkg: &Pkg, srcs: &mut [String]) -> Option<(&'static 
             srcs[m].truncate(i);
         }
         "extra-brace" => srcs[m].push_str("}\n"),
+        "stray-char-top-level" | "stray-token-top-level" => {
+            // something that is not an item between two top-level items (or before the
+            // first / after the last one): a character that is no token at all, or a token
+            // that cannot start an item
+            let what: &str = if kind == "stray-char-top-level" {
+                *rng.pick(&["@", "$", "~", "\u{20ac}", "`", "&", "\\", "\u{a7}"])
+            } else {
+                *rng.pick(&[")", "]", "?", "123", "=>", "==", "\"text\"", ".", ","])
+            };
+            // top-level positions: start, end, and after every line that is just `}`
+            let mut pos: Vec<usize> = vec![0, srcs[m].len()];
+            let mut off = 0;
+            for line in srcs[m].split_inclusive('\n') {
+                off += line.len();
+                if line.trim_end() == "}" {
+                    pos.push(off);
+                }
+            }
+            let at = *rng.pick(&pos);
+            let ins = match rng.below(3) {
+                0 => format!("{what}\n"),
+                1 => format!("  {what}  \n"),
+                _ => format!("\n{what}"),
+            };
+            srcs[m].insert_str(at, &ins);
+        }
         "test-with-params" => srcs[m].push_str("test brk_t() {\n    accept\n}\n"),
         "dup-test" => {
             let t = &pkg.tests.get(rng.usize(pkg.tests.len().max(1)))?;
